@@ -227,6 +227,15 @@ func (m *Message) FlushFrame(ctx context.Context, isEOM bool) error {
 
 	data := m.buffer.Bytes()
 
+	// AES-GCM adds up to 32 bytes (IV + tag) to a frame and the receiver bounds the
+	// on-wire length, so an oversized buffer goes out as several partial frames.
+	for m.stream.IsEncrypted() && len(data) > MaxFrameSize-32 {
+		if err := m.stream.WriteFrame(ctx, data[:MaxFrameSize-32], false); err != nil {
+			return err
+		}
+		data = data[MaxFrameSize-32:]
+	}
+
 	err := m.stream.WriteFrame(ctx, data, isEOM)
 	if err != nil {
 		return err
